@@ -205,6 +205,14 @@ class _DSFID3(ID3):
         except (OverflowError, ValueError):
             raise error("Invalid metadata chunk offset")
 
+    @loadfile(writable=True)
+    def delete(self, filething=None):
+        """Completely removes the ID3 chunk from the DSF file"""
+
+        delete(filething)
+        self.clear()
+        self.unknown_frames = []
+
     @convert_error(IOError, error)
     @loadfile(writable=True)
     def save(self, filething=None, v2_version=4, v23_sep='/', padding=None):
